@@ -57,6 +57,43 @@ def native_case(seed, i, engine):
     return core.Case("backend", lines, {"engine": engine, "native": True, "ev": ev, "look": look}, compare=lambda op: False)
 
 
+def renew_case(seed, i, how):
+    """in-memory engine (its TTL is a timer per write): an Event changed again within its TTL lives until the TTL of
+    its NEWEST change - at the deadline of the first write it must still be there, whole (index and version)"""
+    r = rng_for(seed, "c17r/%d" % i)
+    e = r.choice(EVENT_KEYS)
+    lines = [hist.cfg_line("memkv", eventsttl=1), "create %s %s" % (hx(e), hx(b"v1")), "rev", "sleep 550"]
+    if how == "update":
+        lines += ["update %s %s %d" % (hx(e), hx(b"v2"), hist.INIT + 1), "rev"]
+        newest = hist.INIT + 2
+    else:
+        lines += ["delete %s 0" % hx(e), "rev", "create %s %s" % (hx(e), hx(b"v2")), "rev"]
+        newest = hist.INIT + 3
+    lines += ["sleep 700", "echo young", "get %s 0" % hx(e), "create %s %s" % (hx(e), hx(b"dup")), "rev",
+              "update %s %s %d" % (hx(e), hx(b"v3"), newest), "rev"]
+    return core.Case("backend", lines, {"engine": "memkv", "native": True, "renew": True, "ev": [e], "look": []}, compare=lambda op: False)
+
+
+def renew_oracle(case):
+    young = False
+    for i, (line, out) in enumerate(zip(case.lines, case.impl)):
+        t, o = line.split(), out.split()
+        if t[0] == "echo" and t[1] == "young":
+            young = True
+            continue
+        if not young:
+            continue
+        if t[0] == "get" and len(o) >= 3 and o[2] == "-":
+            return ("line %d: an Event whose newest change is younger than the TTL reads absent (%s)" % (i + 1, out), "young-event-removed")
+        if t[0] == "create" and o[1] == "ok":
+            return ("line %d: an Event whose newest change is younger than the TTL could be created again (%s): the timer of its "
+                    "FIRST write removed the index of the newer one" % (i + 1, out), "young-event-removed")
+        if t[0] == "update" and o[1] != "ok":
+            return ("line %d: a guarded update with the revision of the newest change of a young Event fails (%s): its index "
+                    "was removed by the timer of an older write" % (i + 1, out), "young-event-removed")
+    return None
+
+
 def raw_of(ik):
     b = bytes.fromhex(ik)
     return b[4:-9] if len(b) > 13 and b[:4] == b"\x57\xfb\x80\x8b" else None
@@ -178,10 +215,11 @@ def check(rep, tier, seed):
     cases = [gen_case(seed, i, "tikv") for i in range(n)]
     cases += [concurrent_compact_case(v) for v in range(3)]
     cases += [native_case(seed, i, ["badger", "memkv"][i % 2]) for i in range(4 if tier == "quick" else 96)]
+    cases += [renew_case(seed, i, ["update", "recreate"][i % 2]) for i in range(2 if tier == "quick" else 24)]
     core.run_cases(cases, workers=14)
     for c in cases:
         rep.count_case(c)
-        hit = concurrent_oracle(c) if c.meta.get("concurrent") else native_oracle(c) if c.meta.get("native") else oracle(c)
+        hit = concurrent_oracle(c) if c.meta.get("concurrent") else renew_oracle(c) if c.meta.get("renew") else native_oracle(c) if c.meta.get("native") else oracle(c)
         if hit:
             if core.handle_oracle_hit(rep, "C17", hit[1], c, hit[0], hit[1]):
                 return
